@@ -12,7 +12,7 @@
 //     arguments, outcome and post-state root of the undisturbed run;
 //  2. re-runs the same step from a fresh copy of the same pre-state once per k in 1..P+1 under a
 //     context that reports context.Canceled from its k-th consultation on (sticky), and once per
-//     engine call x {invalid, error};
+//     engine call x {invalid, error = (false, err), errortrue = (true, err)};
 //  3. logs one "Step" event and one "Fault" event per disturbed run.
 //
 // The expected engine arguments are computed here from the block alone: the payload as it sits in the
@@ -103,7 +103,8 @@ type callRec struct {
 	Vh      [][]int
 }
 
-// recEngine answers "valid" except for the plan[n]-th call (1-based).
+// recEngine answers "valid" = (true, nil) except for the plan[n]-th call (1-based): "invalid" = (false, nil),
+// "error" = (false, err), "errortrue" = (true, err).
 type recEngine struct {
 	calls []callRec
 	plan  map[int]string
@@ -118,6 +119,9 @@ func (e *recEngine) answer(c callRec) (bool, error) {
 		return false, nil
 	case "error":
 		return false, errEngine
+	case "errortrue":
+		// the other shape of a failing engine: a "true" that must not be believed because the call failed
+		return true, errEngine
 	}
 	return true, nil
 }
@@ -458,7 +462,7 @@ func (r *recorder) doStep(pre *chain.StateCtx, st stepDesc, plain *result) {
 		r.sum.CancelRuns++
 	}
 	for c := 1; c <= C; c++ {
-		for _, v := range []string{"invalid", "error"} {
+		for _, v := range []string{"invalid", "error", "errortrue"} {
 			fault(map[string]interface{}{"kind": "engine", "k": 0, "c": c, "v": v}, newFaultCtx(0, false), &recEngine{plan: map[int]string{c: v}})
 			r.sum.EngineRuns[und.calls[c-1].Name+":"+v]++
 		}
